@@ -1,11 +1,19 @@
 package rpc
 
 // C02 — real-loopback RPC tier (no bubble, real sockets, real clock): servers built
-// with rpc.NewServer(ServerConfig{ListenOn, Timeout}, register) + Start(), i.e. with
-// the interceptor list exactly as rpc/internal/server.go (Start) and rpc/server.go
-// (setupInterceptors) compose it, serving the repository's mock Deposit service
-// (rpc/internal/mock) with a harness implementation of DepositServiceServer; calls
-// are made with a plain grpc client (no client-side interceptors of the repository).
+// through the public path rpc.NewServer(ServerConfig{...}, register) [+ AddUnaryInterceptors /
+// AddOptions] + Start(), i.e. with the interceptor list exactly as rpc/internal/server.go
+// (Start) and rpc/server.go (setupInterceptors) compose it for THAT configuration, serving
+// the repository's mock Deposit service (rpc/internal/mock) with a harness implementation
+// of DepositServiceServer; calls are made with a plain grpc client (no client-side
+// interceptors of the repository). The server configuration is a generated dimension of
+// the case: ServerConfig.Timeout (0 / 300 ms / 3 s), ServerConfig.Health (the grpc health
+// service; on is the documented default), ServerConfig.Auth (+ StrictControl) against a
+// miniredis of this process with the client sending valid app/token metadata, 0..2
+// pass-through application interceptors added with Server.AddUnaryInterceptors after
+// NewServer, and optionally one more installed with AddOptions(grpc.ChainUnaryInterceptor).
+// One server per distinct configuration lives for the whole process (a server cannot be
+// stopped). None of these settings may change what the statement promises for a call.
 // Only clear-cut handler behaviours are used, so no verdict depends on machine speed:
 //   ok / err / panic   the handler returns or panics at once (server timeout off or 3 s away)
 //   block…             the handler blocks until its context is done (until the server
@@ -26,11 +34,15 @@ import (
 	"testing"
 	"time"
 
+	"github.com/alicebob/miniredis/v2"
 	"github.com/gotid/god/lib/logx"
+	"github.com/gotid/god/lib/store/redis"
 	"github.com/gotid/god/rpc/internal/mock"
 	"google.golang.org/grpc"
 	"google.golang.org/grpc/codes"
 	"google.golang.org/grpc/credentials/insecure"
+	"google.golang.org/grpc/health/grpc_health_v1"
+	"google.golang.org/grpc/metadata"
 	"google.golang.org/grpc/status"
 	"pgregory.net/rapid"
 	"verif.local/kit"
@@ -38,29 +50,75 @@ import (
 
 const c02OwnMsg = "c02own"
 
-var c02RLTimeouts = []int64{3000, 0, 300} // ServerConfig.Timeout (ms) of servers 0, 1, 2
+const (
+	c02RLAuthKey   = "c02:rpc:apps"
+	c02RLAuthApp   = "c02app"
+	c02RLAuthToken = "c02token"
+)
 
+// c02RLCase: the server configuration (T, H, A, X, O) and the behaviour of the judged call.
 type c02RLCase struct {
-	S    int    `json:"s"`              // server
+	T    int64  `json:"t"`              // ServerConfig.Timeout in ms: 0 (no timeout interceptor) | 300 | 3000
+	H    bool   `json:"h,omitempty"`    // ServerConfig.Health: the grpc health service is registered
+	A    int    `json:"a,omitempty"`    // 0: Auth off; 1: ServerConfig.Auth (redis = miniredis of this process); 2: Auth + StrictControl
+	X    int    `json:"x,omitempty"`    // pass-through application interceptors added with Server.AddUnaryInterceptors after NewServer
+	O    bool   `json:"o,omitempty"`    // one more pass-through interceptor installed with Server.AddOptions(grpc.ChainUnaryInterceptor(..))
 	K    string `json:"k"`              // ok | err | panic | block | blockerr | blockpanic
 	Code int    `json:"code,omitempty"` // err: grpc code of the handler's own error
 	PV   int    `json:"pv,omitempty"`   // panic kinds, see c02RLPanic
 }
 
+func (c c02RLCase) confKey() string { return fmt.Sprintf("t%d/h%v/a%d/x%d/o%v", c.T, c.H, c.A, c.X, c.O) }
+
 type c02RLBehaviour struct {
 	id      int
 	c       c02RLCase
 	entered int32
+	seen    int32 // invocations of application interceptors for this call (informational)
 	waited  int64 // block kinds: ns between handler entry and ctx.Done, measured in the handler
 }
 
+type c02RLSrv struct {
+	once sync.Once
+	cl   mock.DepositServiceClient
+	hc   grpc_health_v1.HealthClient
+	err  error
+}
+
 var (
-	c02RLOnce   [3]sync.Once
-	c02RLClient [3]mock.DepositServiceClient
-	c02RLErr    [3]error
+	c02RLMu     sync.Mutex
+	c02RLSrvs   = map[string]*c02RLSrv{}
 	c02RLReg    sync.Map // id -> *c02RLBehaviour
 	c02RLNextID int64
+
+	c02RLRedisOnce sync.Once
+	c02RLRedisAddr string
+	c02RLRedisErr  error
 )
+
+// c02RLRedis starts the miniredis that holds the app/token table of the Auth servers.
+func c02RLRedis() (string, error) {
+	c02RLRedisOnce.Do(func() {
+		m := miniredis.NewMiniRedis()
+		if c02RLRedisErr = m.Start(); c02RLRedisErr != nil {
+			return
+		}
+		m.HSet(c02RLAuthKey, c02RLAuthApp, c02RLAuthToken)
+		c02RLRedisAddr = m.Addr()
+	})
+	return c02RLRedisAddr, c02RLRedisErr
+}
+
+// c02RLPass is an application interceptor that changes nothing: it hands the call on and
+// returns what comes back.
+func c02RLPass(ctx context.Context, req interface{}, _ *grpc.UnaryServerInfo, handler grpc.UnaryHandler) (interface{}, error) {
+	if r, ok := req.(*mock.DepositRequest); ok {
+		if v, ok := c02RLReg.Load(int(r.GetAmount())); ok {
+			atomic.AddInt32(&v.(*c02RLBehaviour).seen, 1)
+		}
+	}
+	return handler(ctx, req)
+}
 
 var c02RLPanicKinds = []string{"string", "errors.New", "nil-map-write", "nil-deref", "index-out-of-range",
 	"status-error-NotFound", "struct", "int", "wrapped-error", "status-error-Unavailable"}
@@ -141,30 +199,47 @@ func (r c02RLResult) String() string {
 
 func c02RLCall(cl mock.DepositServiceClient, b *c02RLBehaviour) c02RLResult {
 	limit := 40 * time.Second
-	if b.c.S == 2 {
+	if b.c.T == 300 {
 		limit = 6 * time.Second // 20 x the server timeout
 	}
 	ctx, cancel := context.WithTimeout(context.Background(), limit)
 	defer cancel()
+	if b.c.A > 0 {
+		ctx = metadata.AppendToOutgoingContext(ctx, "app", c02RLAuthApp, "token", c02RLAuthToken)
+	}
 	t0 := time.Now()
 	resp, err := cl.Deposit(ctx, &mock.DepositRequest{Amount: float32(b.id)})
 	return c02RLResult{resp: resp, err: err, took: time.Since(t0)}
 }
 
-// c02RLStartOnce starts server i on a free port; the port is found by listening on :0
-// and closing again, so it may be taken when Start listens (Start then panics) or be
-// somebody else's: both end in another attempt.
-func c02RLStartOnce(i int) (mock.DepositServiceClient, error) {
+// c02RLStartOnce starts a server of the case's configuration on a free port; the port is
+// found by listening on :0 and closing again, so it may be taken when Start listens (Start
+// then panics) or be somebody else's: both end in another attempt.
+func c02RLStartOnce(c c02RLCase) (mock.DepositServiceClient, grpc_health_v1.HealthClient, error) {
 	l, err := net.Listen("tcp", "127.0.0.1:0")
 	if err != nil {
-		return nil, err
+		return nil, nil, err
 	}
 	addr := l.Addr().String()
 	l.Close()
-	srv, err := NewServer(ServerConfig{ListenOn: addr, Timeout: c02RLTimeouts[i]}, // CpuThreshold 0: no shedder, Auth off, no etcd
-		func(s *grpc.Server) { mock.RegisterDepositServiceServer(s, c02RLService{}) })
+	conf := ServerConfig{ListenOn: addr, Timeout: c.T, Health: c.H} // CpuThreshold 0: no shedder (it reads the machine's real CPU load); no etcd
+	if c.A > 0 {
+		raddr, err := c02RLRedis()
+		if err != nil {
+			return nil, nil, err
+		}
+		conf.Auth, conf.StrictControl = true, c.A == 2
+		conf.Redis = redis.KeyConfig{Config: redis.Config{Host: raddr, Type: redis.NodeType}, Key: c02RLAuthKey}
+	}
+	srv, err := NewServer(conf, func(s *grpc.Server) { mock.RegisterDepositServiceServer(s, c02RLService{}) })
 	if err != nil {
-		return nil, err
+		return nil, nil, err
+	}
+	for i := 0; i < c.X; i++ {
+		srv.AddUnaryInterceptors(c02RLPass)
+	}
+	if c.O {
+		srv.AddOptions(grpc.ChainUnaryInterceptor(c02RLPass))
 	}
 	died := make(chan string, 1)
 	go func() {
@@ -180,51 +255,61 @@ func c02RLStartOnce(i int) (mock.DepositServiceClient, error) {
 	defer cancel()
 	conn, err := grpc.DialContext(dctx, addr, grpc.WithTransportCredentials(insecure.NewCredentials()), grpc.WithBlock())
 	if err != nil {
-		return nil, fmt.Errorf("server %d on %s: dial: %v", i, addr, err)
+		return nil, nil, fmt.Errorf("server %s on %s: dial: %v", c.confKey(), addr, err)
 	}
 	select {
 	case why := <-died:
 		conn.Close()
-		return nil, fmt.Errorf("server %d on %s: %s", i, addr, why)
+		return nil, nil, fmt.Errorf("server %s on %s: %s", c.confKey(), addr, why)
 	default:
 	}
 	cl := mock.NewDepositServiceClient(conn)
-	if r := c02RLCall(cl, c02RLNew(c02RLCase{K: "ok"})); r.err != nil || !r.resp.GetOk() {
+	probe := c
+	probe.K, probe.Code, probe.PV = "ok", 0, 0
+	if r := c02RLCall(cl, c02RLNew(probe)); r.err != nil || !r.resp.GetOk() {
 		conn.Close()
-		return nil, fmt.Errorf("server %d on %s does not answer the probe call: %v", i, addr, r)
+		return nil, nil, fmt.Errorf("server %s on %s does not answer the probe call: %v", c.confKey(), addr, r)
 	}
-	return cl, nil
+	return cl, grpc_health_v1.NewHealthClient(conn), nil
 }
 
-func c02RLServer(i int) (mock.DepositServiceClient, error) {
-	c02RLOnce[i].Do(func() {
+func c02RLServer(c c02RLCase) (*c02RLSrv, error) {
+	c02RLMu.Lock()
+	sv := c02RLSrvs[c.confKey()]
+	if sv == nil {
+		sv = &c02RLSrv{}
+		c02RLSrvs[c.confKey()] = sv
+	}
+	c02RLMu.Unlock()
+	sv.once.Do(func() {
 		for attempt := 0; attempt < 5; attempt++ {
-			c02RLClient[i], c02RLErr[i] = c02RLStartOnce(i)
-			if c02RLErr[i] == nil {
+			sv.cl, sv.hc, sv.err = c02RLStartOnce(c)
+			if sv.err == nil {
 				return
 			}
 		}
 	})
-	return c02RLClient[i], c02RLErr[i]
+	return sv, sv.err
 }
 
 func c02RLValid(c c02RLCase) bool {
-	if c.S < 0 || c.S > 2 {
+	if c.A < 0 || c.A > 2 || c.X < 0 || c.X > 2 {
 		return false
 	}
+	immediate, blocks := c.T == 0 || c.T == 3000, c.T == 300
 	switch c.K {
 	case "ok":
-		return c.S != 2
+		return immediate
 	case "err":
-		return c.S != 2 && c.Code >= 1 && c.Code <= 16
+		return immediate && c.Code >= 1 && c.Code <= 16
 	case "panic":
-		return c.S != 2 && c.PV >= 0 && c.PV < len(c02RLPanicKinds)
+		return immediate && c.PV >= 0 && c.PV < len(c02RLPanicKinds)
 	case "block":
-		return c.S == 2
+		return blocks
 	case "blockerr":
-		return c.S == 2 && c.Code >= 1 && c.Code <= 16
+		return blocks && c.Code >= 1 && c.Code <= 16
 	case "blockpanic":
-		return c.S == 2 && c.PV >= 0 && c.PV < len(c02RLPanicKinds)
+		return blocks && c.PV >= 0 && c.PV < len(c02RLPanicKinds)
 	}
 	return false
 }
@@ -234,14 +319,24 @@ func c02RLRun(c c02RLCase) (v kit.Verdict) {
 		v.Excluded = true
 		return v
 	}
-	cl, err := c02RLServer(c.S)
+	sv, err := c02RLServer(c)
 	if err != nil {
 		v.Excluded = true
 		v.Classes = []string{"server-not-started"}
 		return v
 	}
-	T := time.Duration(c02RLTimeouts[c.S]) * time.Millisecond
-	cls := map[string]bool{"kind-" + c.K: true, fmt.Sprintf("server-%d(timeout %v)", c.S, T): true}
+	cl := sv.cl
+	T := time.Duration(c.T) * time.Millisecond
+	srvName := fmt.Sprintf("{Timeout %v, Health %v, Auth %d, %d added interceptors, interceptor option %v}", T, c.H, c.A, c.X, c.O)
+	cls := map[string]bool{"kind-" + c.K: true, fmt.Sprintf("server-timeout-%v", T): true,
+		fmt.Sprintf("server-health-%v", c.H): true, fmt.Sprintf("server-auth-%d", c.A): true,
+		fmt.Sprintf("server-added-interceptors-%d", c.X): true}
+	if c.O {
+		cls["server-interceptor-option"] = true
+	}
+	if c.H && (c.X > 0 || c.A > 0) {
+		cls["health-on+interceptors-after-timeout"] = true
+	}
 	defer func() {
 		for k := range cls {
 			v.Classes = append(v.Classes, k)
@@ -250,19 +345,30 @@ func c02RLRun(c c02RLCase) (v kit.Verdict) {
 	}()
 	stalled := func(r c02RLResult) bool {
 		// "returns at once" no longer describes a run in which the machine stood still for
-		// half the server timeout; a client that waited 20 s (5 s on server 2) may have hit its own deadline (40 s / 6 s)
-		return (c.S == 0 && r.took >= T/2) || r.took >= 20*time.Second || (c.S == 2 && r.took >= 5*time.Second)
+		// half the server timeout; a client that waited 20 s (5 s on a 300 ms server) may have hit its own deadline (40 s / 6 s)
+		return (c.T == 3000 && r.took >= T/2) || r.took >= 20*time.Second || (c.T == 300 && r.took >= 5*time.Second)
 	}
+	ok := c
+	ok.K, ok.Code, ok.PV = "ok", 0, 0
 	// two calls that must succeed: breaker padding, and proof that the server survived what came before
 	for i := 0; i < 2; i++ {
-		r := c02RLCall(cl, c02RLNew(c02RLCase{K: "ok"}))
+		r := c02RLCall(cl, c02RLNew(ok))
 		if stalled(r) || (T > 0 && r.took >= T/2) { // an immediate handler that needed half the server timeout: starved machine
 			cls["machine-stalled"] = true
 			v.Excluded = true
 			return v
 		}
 		if r.err != nil || !r.resp.GetOk() {
-			return v.Failf("rpc loopback server %d (timeout %v): a call whose handler returns a response at once failed (is the server still alive?): %v", c.S, T, r)
+			return v.Failf("rpc loopback server %s: a call whose handler returns a response at once failed (is the server still alive?): %v", srvName, r)
+		}
+	}
+	if c.H {
+		// a health probe: the statement says nothing about its result; it must not take the server down
+		hctx, cancel := context.WithTimeout(context.Background(), 10*time.Second)
+		_, herr := sv.hc.Check(hctx, &grpc_health_v1.HealthCheckRequest{})
+		cancel()
+		if herr == nil {
+			cls["health-probe-answered"] = true
 		}
 	}
 	b := c02RLNew(c)
@@ -281,9 +387,9 @@ func c02RLRun(c c02RLCase) (v kit.Verdict) {
 		}
 	default:
 	}
-	if w := time.Duration(atomic.LoadInt64(&b.waited)); c.S == 2 && w >= 4*time.Second {
+	if w := time.Duration(atomic.LoadInt64(&b.waited)); c.T == 300 && w >= 4*time.Second {
 		// measured inside the handler, right after two calls that were answered promptly
-		return v.Failf("rpc loopback server %d (timeout %v), %+v: the handler's context was done only %v after the handler started: the server timeout did not end the call; got %v", c.S, T, c, w.Round(time.Millisecond), r)
+		return v.Failf("rpc loopback server %s, %+v: the handler's context was done only %v after the handler started: the server timeout did not end the call; got %v", srvName, c, w.Round(time.Millisecond), r)
 	}
 	if stalled(r) {
 		cls["machine-stalled"] = true
@@ -291,7 +397,7 @@ func c02RLRun(c c02RLCase) (v kit.Verdict) {
 		return v
 	}
 	if n := atomic.LoadInt32(&b.entered); n != 1 {
-		return v.Failf("rpc loopback server %d (timeout %v), %+v: handler entered %d times; got %v", c.S, T, c, n, r)
+		return v.Failf("rpc loopback server %s, %+v: handler entered %d times; got %v", srvName, c, n, r)
 	}
 	own := func(kind string) string {
 		switch kind {
@@ -314,7 +420,7 @@ func c02RLRun(c c02RLCase) (v kit.Verdict) {
 	switch c.K {
 	case "ok", "err":
 		if s := own(c.K); s != "" {
-			return v.Failf("rpc loopback server %d (timeout %v), handler returns at once %+v: %s; got %v", c.S, T, c, s, r)
+			return v.Failf("rpc loopback server %s, handler returns at once %+v: %s; got %v", srvName, c, s, r)
 		}
 	case "panic":
 		v.NonTrivial = true
@@ -323,21 +429,21 @@ func c02RLRun(c c02RLCase) (v kit.Verdict) {
 			cls["panic-without-timeout-interceptor"] = true
 		}
 		if s := own("panic"); s != "" {
-			return v.Failf("rpc loopback server %d (timeout %v), handler panics at once with a %s value: %s; got %v", c.S, T, c02RLPanicKinds[c.PV], s, r)
+			return v.Failf("rpc loopback server %s, handler panics at once with a %s value: %s; got %v", srvName, c02RLPanicKinds[c.PV], s, r)
 		}
 	case "block", "blockerr", "blockpanic":
 		v.NonTrivial = true
 		st, _ := status.FromError(r.err)
 		if r.err != nil && st.Code() == codes.DeadlineExceeded && st.Message() != fmt.Sprintf("%s %d", c02OwnMsg, b.id) && r.resp == nil {
 			if r.took < T {
-				return v.Failf("rpc loopback server %d (timeout %v), %+v: DeadlineExceeded before the timeout; got %v", c.S, T, c, r)
+				return v.Failf("rpc loopback server %s, %+v: DeadlineExceeded before the timeout; got %v", srvName, c, r)
 			}
 			break
 		}
 		// a slow scheduler may let the handler's return tie with the deadline: its own result, in full
 		kind := map[string]string{"block": "ok", "blockerr": "err", "blockpanic": "panic"}[c.K]
 		if s := own(kind); s != "" {
-			return v.Failf("rpc loopback server %d (timeout %v), handler blocks until its context is done %+v: result is neither DeadlineExceeded nor the handler's own (%s); got %v", c.S, T, c, s, r)
+			return v.Failf("rpc loopback server %s, handler blocks until its context is done %+v: result is neither DeadlineExceeded nor the handler's own (%s); got %v", srvName, c, s, r)
 		}
 		cls["tie:handler-won"] = true
 	}
@@ -348,10 +454,15 @@ func c02RLGen(rt *rapid.T) c02RLCase {
 	c := c02RLCase{K: rapid.SampledFrom([]string{"ok", "err", "panic", "panic", "panic", "block", "blockerr", "blockpanic"}).Draw(rt, "kind")}
 	switch c.K {
 	case "ok", "err", "panic":
-		c.S = rapid.SampledFrom([]int{0, 1, 1}).Draw(rt, "server")
+		c.T = rapid.SampledFrom([]int64{3000, 0, 0}).Draw(rt, "timeout")
 	default:
-		c.S = 2
+		c.T = 300
 	}
+	// the server configuration
+	c.H = rapid.Bool().Draw(rt, "health")
+	c.A = rapid.SampledFrom([]int{0, 0, 0, 1, 2}).Draw(rt, "auth")
+	c.X = rapid.SampledFrom([]int{0, 0, 1, 2}).Draw(rt, "added")
+	c.O = rapid.IntRange(0, 3).Draw(rt, "option") == 0
 	if c.K == "err" || c.K == "blockerr" {
 		c.Code = rapid.SampledFrom([]int{1, 2, 3, 4, 5, 7, 9, 13, 14, 16}).Draw(rt, "code")
 	}
@@ -364,10 +475,12 @@ func c02RLGen(rt *rapid.T) c02RLCase {
 func TestVerif_C02_rpc_loopback(t *testing.T) {
 	kit.Run(t, "C02", "rpc-loopback", kit.Opts{Quick: 40, Thorough: 960}, c02RLGen,
 		func(c c02RLCase) kit.Verdict { return c02RLRun(c) })
-	for i, err := range c02RLErr {
-		if err != nil {
+	c02RLMu.Lock()
+	defer c02RLMu.Unlock()
+	for k, sv := range c02RLSrvs {
+		if sv.err != nil {
 			// no failure fragment is written, so the driver reports INCONCLUSIVE (exit 2), not a violation
-			t.Errorf("rpc loopback server %d could not be started, its cases were excluded: %v", i, err)
+			t.Errorf("rpc loopback server %s could not be started, its cases were excluded: %v", k, sv.err)
 		}
 	}
 }
